@@ -30,6 +30,8 @@ def run(chk):
     chk.rule("S6", "slices of width nsym out of flat block-charge tuples start at a multiple of nsym (also in the unrolled-contraction code)", floor=25)
     e6.run_S6(chk)
 
+    from . import e10
+    e10.run_U(chk, ("yastn.tensor",), floor1=5, floor2=1)
 
 MUTANTS = [
     ("unrolled output charge slice unaligned", "yastn/tensor/oe_blocksparse.py", "block_ct[out_ax * nsym : (out_ax + 1) * nsym]", "block_ct[out_ax : out_ax + nsym]", "S6"),
